@@ -5,6 +5,7 @@ import (
 	"encoding/json"
 	"fmt"
 	"os"
+	"runtime/pprof"
 	"sort"
 	"time"
 
@@ -16,7 +17,9 @@ import (
 // legitimately leave goroutines behind; only C15 asks about them, explicitly).
 func RunInBubble(s *spec.RunSpec, outPath string, wallStart time.Time) {
 	res := &spec.RunResult{Property: s.Property, Seed: s.Seed, Faults: map[string]int{}, Probes: map[string]int{}}
+	stopProfile := StopProfile
 	writeResultAndExit = func(r *spec.RunResult) {
+		stopProfile()
 		writeResult(outPath, r)
 		os.Exit(0)
 	}
@@ -25,6 +28,7 @@ func RunInBubble(s *spec.RunSpec, outPath string, wallStart time.Time) {
 			w.collect()
 		}
 		res.WallMs = time.Since(wallStart).Milliseconds() // real clock is not visible in the bubble; filled by the driver
+		stopProfile()
 		writeResult(outPath, res)
 		os.Exit(0)
 	}
@@ -41,6 +45,19 @@ func RunInBubble(s *spec.RunSpec, outPath string, wallStart time.Time) {
 }
 
 var writeResultAndExit func(*spec.RunResult)
+
+// StopProfile ends the CPU profile that TestRun may have started outside the bubble
+// (VSIM_CPUPROFILE, a debugging aid).
+var StopProfile = func() {}
+
+// StartProfile must be called outside the synctest bubble: the profile writer sleeps on the real clock.
+func StartProfile() {
+	if pp := os.Getenv("VSIM_CPUPROFILE"); pp != "" {
+		if f, err := os.Create(pp); err == nil && pprof.StartCPUProfile(f) == nil {
+			StopProfile = func() { pprof.StopCPUProfile(); f.Close() }
+		}
+	}
+}
 
 type scenarioFn func(s *spec.RunSpec, res *spec.RunResult, finish func(*World))
 
